@@ -458,6 +458,22 @@ impl ReplDriver {
             if let Some(proof) = self.make_proof(&mut p, &req) {
                 self.apply_honest(&mut p, &req, proof, &FaultCfg::none(), &mut lin);
             }
+            // a second proof, applied by a call that does not flush: the replica's newest nodes
+            // then live only in memory and in the oplog
+            if nblocks > 3 {
+                let rlen = p.r.len();
+                let req = Req {
+                    block: Some(RequestBlock { index: nblocks - 1, nodes: p.r.missing_nodes(nblocks - 1).unwrap_or(0) }),
+                    hash: None,
+                    seek: None,
+                    upgrade: Some(RequestUpgrade { start: rlen, length: nblocks - rlen }),
+                };
+                if rlen < nblocks {
+                    if let Some(proof) = self.make_proof(&mut p, &req) {
+                        self.apply_honest(&mut p, &req, proof, &FaultCfg::none(), &mut lin);
+                    }
+                }
+            }
         }
         let len = p.w.len();
         let bytes: u64 = p.wbytes.iter().sum();
